@@ -8,6 +8,7 @@ import (
 	"fmt"
 	"os"
 	"path/filepath"
+	"regexp"
 	"strings"
 	"time"
 	"unicode/utf8"
@@ -34,6 +35,8 @@ func (p *ParCase) setText(s string) {
 	p.TextB64 = base64.StdEncoding.EncodeToString([]byte(s))
 	p.Text = shortText(s, 200)
 }
+
+var hugeNumberRe = regexp.MustCompile(`\d{15,}`)
 
 type parEngine struct{}
 
@@ -201,6 +204,13 @@ func (parEngine) execute(sc *Scenario) *Outcome {
 	pc := sc.Par
 	text := pc.text()
 	if len(pc.Cmd) > 0 {
+		if os.Getenv("VERIF_FREE") != "" {
+			// the free-running race side run only exercises the parser (no simulator, no bubble:
+			// the race detector does not understand the bubble's internal synchronisation)
+			out.stat("free_run_skipped_cmd", 1)
+			out.finish()
+			return out
+		}
 		return parExecuteCmd(sc, out)
 	}
 	// The parallel parse runs FIRST: process-wide state inside klog (caches, pools) must be met
@@ -216,7 +226,15 @@ func (parEngine) execute(sc *Scenario) *Outcome {
 		},
 	}
 	var res ProcResult
-	if os.Getenv("VERIF_FREE") != "" {
+	free := os.Getenv("VERIF_FREE") != ""
+	if free && hugeNumberRe.MatchString(text) {
+		// absurdly large numbers panic in both engines (known findings); in a free run a panic in a
+		// worker goroutine would take the whole process down, so such texts are left to the simulated runs
+		out.stat("free_run_skipped_huge_number", 1)
+		out.finish()
+		return out
+	}
+	if free {
 		// side run under the race detector: the goroutines run freely and truly in parallel
 		// (no simulator), so that unsynchronised accesses are not ordered by the scheduler
 		func() {
@@ -282,6 +300,9 @@ func (parEngine) execute(sc *Scenario) *Outcome {
 	out.stat("decisions", len(res.Decisions))
 	if res.Uncontrol > 0 {
 		out.stat("uncontrolled_seams", res.Uncontrol)
+	}
+	if free && nonEmpty >= 2 {
+		out.Distinct = append(out.Distinct, fnv(fmt.Sprintf("free|%s|%d", text, pc.Workers)))
 	}
 	if nonEmpty >= 2 && !inOrder {
 		out.stat("arrival_order_permuted", 1)
